@@ -2,6 +2,7 @@
 """Regenerates the `fixed` list of known_findings.json from /repo's "fix:" commits."""
 import json, subprocess
 PROP = {
+"a serializer registered lazily as a bare function":"C12",
 "recursion analysis results were shared between":"C09",
 "serialize(float, 1, check_type=True) raised":"C08",
 "serializing a discriminated union with no_copy=True":"C08",
